@@ -141,7 +141,7 @@ def run_fide(ctx):
                         diffs.append(f"constraint {n1} not equivalent")
             if diffs:
                 r.oracle_fail("writer-output", req, "roundtrip:same-model", "; ".join(diffs[:4]))
-            for fail in fmt.graph_wf(cur):
+            for fail in fmt.graph_wf(cur, written=fmt.written_names(m)):
                 r.oracle_fail("writer-output", req, "graph:" + fail[0], fail[1])
             text = None        # the text written from the (normalised) model read back must not change any more
             for cyc in range(2, 5):
@@ -280,7 +280,7 @@ def run_fide_third_party(ctx):
                         diffs.append(f"constraint {n1} not equivalent")
             if diffs:
                 r.oracle_fail("emitter", rreq, "denotes:same-model", "; ".join(diffs[:4]))
-            for fail in fmt.graph_wf(holder["fm"]):
+            for fail in fmt.graph_wf(holder["fm"], written=fmt.written_names(m)):
                 r.oracle_fail("emitter", rreq, "graph:" + fail[0], fail[1])
     finally:
         sc.close()
@@ -461,7 +461,7 @@ def check_fama_file(ctx, r, label, path, m, stats=None):
         if diffs:
             r.oracle_fail(label, case, "denotes:same-model", "; ".join(diffs[:4]))
     if label != "malformed":
-        for fail in fmt.graph_wf(fm):
+        for fail in fmt.graph_wf(fm, written=fmt.written_names(m) if m is not None else None):
             r.oracle_fail(label, case, "graph:" + fail[0], fail[1])
     if stats and os.path.exists(stats):
         want = parse_stats(stats)
